@@ -17,6 +17,27 @@ CHECKS = {
  "C13": ("Coq proof (temp path contains no ../ and is relative; refutation witnesses for non-canonical shapes) + T1 conformance of FinalizePaths/createDirs/executeCommand + T2 differential on a path grammar + T3 one-task workflows per output-path shape",
          "Theorems over all path strings for the encoding; skeleton conformance ties the rename source/target to the code; real workflows place a file through {o:..} for every shape of the grammar (plain, new sub-directories, parent-relative, absolute, place-holder-like segments) and check the property statement directly.",
          "7 C13", ""),
+ "C01": ("Coq proof of an invariant of the TaskFS transition system over all schedules / kill instants / failure modes + T1 skeleton conformance of Task.Execute, FinalizePaths, FileIP.Write + T3 fault enumeration (kill at every hook point, five failure kinds, random SIGKILL)",
+         "C01_atomic holds in every reachable state of the model for every task DAG, initial store, left-over set and schedule; the phase order it builds in is an obligation on the skeleton regenerated from the source; the real library is killed at every instrumented instant and made to fail in every modelled way, and each resulting directory is checked against the property statement.",
+         "7 C01", ""),
+ "C02": ("Coq proof (skip, untouched, re-run executes nothing) on TaskFS + T1 conformance + T3 with planted outputs and the history run / run-again",
+         "Theorems for every DAG, every initial store (= every subset of pre-existing outputs with arbitrary content) and every schedule; real runs with planted outputs are compared with the reference evaluator and monitored for stamps (inode, mtime, bytes) and for any command of a skipped task.",
+         "7 C02", ""),
+ "C03": ("Coq proof (complete run = sequential reference; any task-atomic crash state re-runs to the same result; no re-execution; leftovers refused; refutation witness for mid-finalize) + T3 crash / re-run / cleanup / re-run histories incl. nested crashes",
+         "Convergence is proved for every crash state of every schedule under the guard finalize_atomic, whose complement is the recorded finding D2 (refuted lemma + replay); histories are enumerated on the real library over every hook point.",
+         "7 C03", ""),
+ "C04": ("Coq proof of history invariants of the process-network transition system (tasks = zip of in-edge histories, each emitted exactly once in order, completeness in final states, schedule independence) + T1 conformance of Process.Run / createTasks / ports + T3 random workflows vs the reference evaluator",
+         "Theorems for every merge-free balanced acyclic configuration, every stream length, capacity >= 1 and every schedule; real workflows (incl. fan-in, parameter streams, port-less processes, streams longer than the buffers, perturbed schedules) must produce exactly the file set, bytes and task multiset of the Coq reference evaluator.",
+         "7 C04", "Single-port fan-in and parameter ports are covered by the correspondence, not by the network theorems."),
+ "C05": ("Coq proof (deadlock freedom for every reachable state by a blame argument, strictly decreasing potential, finished-implies-upstream-finished, completeness at the end) + T1 conformance of runProcs / Run / Sink + T3 termination and at-return snapshots",
+         "Deadlock freedom and termination are proved for all merge-free balanced acyclic networks with capacity >= 1 and all schedules; the program's own snapshot right after Run returns is checked for every predicted output and for leftovers on shapes with several leaves, driver processes, port-less processes, chains longer than the buffers.",
+         "7 C05", ""),
+ "C08": ("Coq proof (emission order = creation order = arrival order, as an invariant over all schedules) + T1 conformance of the task queue handling + T3 recorders with inverted completion orders",
+         "For every configuration and schedule the sequence on an out-edge is the image of the created tasks in order; recorder components on real runs with later tasks finishing first must log exactly that order.",
+         "7 C08", ""),
+ "C09": ("Coq proof on TaskFS (failure leads to the absorbing exited state, failed outputs untouched, no dependant leaves Wait) + T1 conformance of the Fail paths + T3 failure injection incl. task-formation failures",
+         "Theorems over all DAGs and schedules; real runs with one failing task (five failure kinds, shell and Go function, concurrent siblings) and formation failures are monitored for exit status, completion marker, failed outputs, dependants and content of everything finalized.",
+         "7 C09", ""),
 }
 
 def main():
